@@ -7,6 +7,8 @@ import (
 	"strings"
 )
 
+func init() { generators["varint"] = genVarint }
+
 // genVarint extracts the threshold table of varint.EncodedSize and the literal shape of Pack8.
 func genVarint() {
 	fset, f := parseFile("formats/varint/helpers.go")
